@@ -26,7 +26,15 @@ def c_unescape(body: str):
             if i + 1 >= len(body):
                 return None
             nx = body[i + 1]
-            simple = {"n": "\n", "t": "\t", "r": "\r", "\\": "\\", '"': '"', "'": "'", "0": "\0", "a": "\a", "b": "\b", "f": "\f", "v": "\v", "?": "?"}
+            simple = {"n": "\n", "t": "\t", "r": "\r", "\\": "\\", '"': '"', "'": "'", "a": "\a", "b": "\b", "f": "\f", "v": "\v", "?": "?"}
+            mo = re.match(r"[0-7]{1,3}", body[i + 1:])
+            if mo:
+                # octal escape: at most three digits
+                if int(mo.group(0), 8) > 0xFF:
+                    return None
+                out.append(chr(int(mo.group(0), 8)))
+                i += 1 + len(mo.group(0))
+                continue
             if nx in simple:
                 out.append(simple[nx])
                 i += 2
@@ -35,7 +43,9 @@ def c_unescape(body: str):
                 m = re.match(r"[0-9a-fA-F]+", body[i + 2:])
                 if not m:
                     return None
-                out.append(chr(int(m.group(0), 16) & 0xFF))
+                if int(m.group(0), 16) > 0xFF:
+                    return None      # hex escapes are greedy: `\xb0C` is one out-of-range escape, an error for clang
+                out.append(chr(int(m.group(0), 16)))
                 i += 2 + len(m.group(0))
                 continue
             return None
@@ -353,10 +363,11 @@ void use_lcd_{j}() {{
         r.check(okp, f"stitch/{a}-before-{b}", (em, em.func("emit")), f"section `{a}` must precede `{b}` (a later section may use identifiers of an earlier one); positions {pos}")
 
     # ---- C06-ESCAPE --------------------------------------------------------------------------
-    r = cx.rule("C06-ESCAPE", "string literals are escaped into valid C literals that decode to the original text (all printable ASCII characters and pairs with backslash/quote)", floor=100, exhaustive=True)
+    r = cx.rule("C06-ESCAPE", "string literals are escaped into valid C literals that decode to the original text (all printable ASCII characters, pairs with backslash/quote, control characters, Latin-1 characters followed by hex digits)", floor=100, exhaustive=True)
     esc = pm.func("_escape_string_literal")
     chars = [chr(c) for c in range(32, 127)]
-    samples = chars + [a + b for a in ("\\", '"', "x") for b in ("\\", '"', "n", "x")] + ['C:\\data\\', 'say "hi"', '\\"', 'tab\\there', "%d{}"]
+    samples = chars + [a + b for a in ("\\", '"', "x") for b in ("\\", '"', "n", "x")] + ['C:\\data\\', 'say "hi"', '\\"', 'tab\\there', "%d{}"] + \
+        ["a\nb", "tab\there", "cr\rlf\n", "bell\x07!", "esc\x1b[0m", "nul\x000", "del\x7f1", "25\u00b0C", "d\u00e9cor", "\u00e91", "\u00fca", "caf\u00e9", "\u00b5F"]
     nbad = 0
     for s in samples:
         try:
